@@ -83,7 +83,13 @@ fn plan_c27(seed: u64, tier: &str) -> Plan {
         }
         let n = if tier == "quick" { r.usize(3, 14) } else { r.usize(3, 30) };
         for _ in 0..n {
-            ops.push(Op::W { w: 0, k: WKind::Write, key: r.below(n_inst) as u8, len: r.range(0, 30), x: uid as i32, name: String::new(), ts: None, h: H::None, uid });
+            let key = r.below(n_inst) as u8;
+            if r.chance(0.12) {
+                // instance management in between: an unregistered / disposed instance keeps its unacknowledged samples
+                let k = if r.chance(0.7) { WKind::Unregister } else { WKind::Dispose };
+                ops.push(Op::W { w: 0, k, key, len: 0, x: 0, name: String::new(), ts: None, h: H::None, uid: 100_000 + uid });
+            }
+            ops.push(Op::W { w: 0, k: WKind::Write, key, len: r.range(0, 30), x: uid as i32, name: String::new(), ts: None, h: H::None, uid });
             uid += 1;
             if r.chance(0.5) {
                 ops.push(Op::Sleep { us: *r.pick(&[0u64, 100, 2000, 30_000, 200_000]) });
@@ -138,7 +144,12 @@ fn check_c27(plan: &Plan, out: &Outcome) -> Verdict {
         let mut ok: Vec<(u32, u8)> = vec![];
         let mut timed_out: Vec<u32> = vec![];
         for rec in h.recs.iter().filter(|r| r.phase == 1) {
-            let Op::W { uid, key, .. } = &rec.op else { continue };
+            let Op::W { uid, key, k, .. } = &rec.op else { continue };
+            if *k != WKind::Write {
+                // unregister / dispose: any outcome is accepted, the data samples around them are what is judged
+                v.probe("instance_management_ops", 1);
+                continue;
+            }
             let dur = rec.ret_t.saturating_sub(rec.inv_t);
             match &rec.res {
                 Res::Unit(Ok(())) => {
